@@ -1,4 +1,5 @@
 import BA.Model.Sector.Partition
+import BA.Model.Sector.Alloc
 import Driver.Util
 namespace Driver.Partition
 open BA BA.Sector BA.NatSet Driver
@@ -6,6 +7,7 @@ open BA BA.Sector BA.NatSet Driver
 structure DState where
   env : Env := { tbl := [], qs := { unit := 1, offset := 0 } }
   p : BA.Sector.Partition := {}
+  alloc : NatSet := []
   deriving Inhabited
 
 def showSet (s : List Nat) : String := showList ((NatSet.sort s).map toString)
@@ -95,6 +97,14 @@ def handle (s : DState) (line : String) : DState × String :=
       (s', s!"ok | {showPartition s'.p}")
     | _, _ => (s, "bad-op")
   | ["new"] => let s' := { s with p := {} }; (s', s!"ok | {showPartition s'.p}")
+  | ["allocnew"] => ({ s with alloc := [] }, "ok | -")
+  | ["alloc", deny, ns] =>
+    match parseBool? deny, parseSet? ns with
+    | some d, some ns =>
+      match BA.Sector.Alloc.allocate s.alloc ns (if d then .denyCollisions else .allowCollisions) with
+      | .ok a => ({ s with alloc := a }, s!"ok | {showSet a}")
+      | .error e => (s, s!"err {e} | {showSet s.alloc}")
+    | _, _ => (s, "bad-op")
   | ws =>
     match parseOp s.env.tbl ws with
     | none => (s, "bad-op")
